@@ -42,8 +42,13 @@ class Sequence:
             job2.requires(job1)
         # any requirements specified in the constructor
         # actually apply to the first item
+        # if the sequence is still empty, remember them for the first job
+        # that append() will add
+        self._pending_required = None
         if self.jobs:
             self.jobs[0].requires(required)
+        else:
+            self._pending_required = required
         # make all jobs belong in the scheduler if provided
         self.scheduler = scheduler
         if self.scheduler is not None:
@@ -81,6 +86,11 @@ class Sequence:
             job2.requires(job1)
         if self.jobs:
             new_jobs[0].requires(self.jobs[-1])
+        else:
+            # first job in the sequence: it receives the requirements
+            # that were specified in the constructor
+            new_jobs[0].requires(self._pending_required)
+            self._pending_required = None
         self.jobs += new_jobs
         if self.scheduler is not None:
             self.scheduler.update(new_jobs)
